@@ -534,10 +534,10 @@ package main
 //@   note abstract: skips EOL tokens (recursion over the tokenizer); may panic on a scanner error
 
 //@ func psConsume
-//@   trusted
+//@   props C15 C08 C07
 //@   panics may
+//@   ensures consumed: ps.tkz.current.ttype == ttype && result == adv(ps)
 //@   ensures frame: result.scope == ps.scope && result.offsideCol == ps.offsideCol && result.tvc == ps.tvc && result.tdctx == ps.tdctx
-//@   note abstract: checks the current token type and advances the tokenizer; every other component is kept
 
 //@ func lookupBinOp
 //@   trusted
@@ -1056,6 +1056,7 @@ package main
 //@ func psNext
 //@   trusted
 //@   panics may
+//@   returns adv(ps)
 //@   ensures frame: result.scope == ps.scope && result.offsideCol == ps.offsideCol && result.tvc == ps.tvc && result.tdctx == ps.tdctx
 //@   note abstract: advances the tokenizer (tkzNext, verified under C06 over byte strings); every other component is kept
 
@@ -1087,3 +1088,79 @@ package main
 //@   ensures scope-restored: result.E0.scope == ps.scope
 //@   at before call parseExtDefs#0: SC = ps4.scope
 //@   at before call piRegAll#0: RS = ps5.scope
+
+// ---------------------------------------------------------------------------------------------
+// C15 parser half: every value the type parser returns is a derivation of the documented grammar
+// (/verif/specs/grammar.spec).  The function-typed parameter pType behaves like parseType.
+// ---------------------------------------------------------------------------------------------
+
+//@ func psCurIs
+//@   props C15
+//@   panics never
+//@   returns ps.tkz.current.ttype == expectTT
+
+//@ func psCurIsNot
+//@   props C15
+//@   panics never
+//@   returns ps.tkz.current.ttype != expectTT
+
+//@ func psMulConsume
+//@   props C15
+//@   panics may
+//@   ensures consumed: forall k int :: 0 <= k && k < len(ttypes) ==> advn(ps, k).tkz.current.ttype == ttypes[k]
+//@   ensures state: result == advn(ps, len(ttypes))
+//@   inline-call slice.Fold#0
+//@   loop slice.Fold#0/0 index i:
+//@     invariant state: stat == advn(iniS, i)
+//@     invariant consumed: forall k int :: 0 <= k && k < i ==> advn(iniS, k).tkz.current.ttype == ss[k]
+
+//@ func scLookupTypeFac
+//@   trusted
+//@   panics may
+//@ func parseFullName
+//@   trusted
+//@   panics may
+//@ func mightParseSpecifiedTypeList
+//@   trusted
+//@   panics may
+//@ func tdctxTVFAlloc
+//@   trusted
+//@   panics may
+
+//@ func parseAtomType
+//@   props C15
+//@   modifies maps
+//@   param pType: like parseType($0)
+//@   panics may
+//@   ensures grammar: Ratom(ps, result.E0, result.E1)
+
+//@ func parseTermType
+//@   props C15
+//@   modifies maps
+//@   param pType: like parseType($0)
+//@   panics may
+//@   ensures grammar: Rterm(ps, result.E0, result.E1)
+
+//@ func parseElemType
+//@   props C15
+//@   modifies maps
+//@   param pType: like parseType($0)
+//@   panics may
+//@   ensures grammar: Relem(ps, result.E0, result.E1)
+//@   inline-call ParseList2
+//@   loop ParseList2/0:
+//@     invariant terms: Rterms(old(ps), ps, res) && len(res) >= 1
+
+//@ func parseTypeArrows
+//@   props C15
+//@   modifies maps
+//@   param pType: like parseType($0)
+//@   panics may
+//@   ensures grammar: Rarrows(ps, result.E0, result.E1)
+//@   ensures nonempty: len(result.E1) >= 1
+
+//@ func parseType
+//@   props C15
+//@   modifies maps
+//@   panics may
+//@   ensures grammar: Rtype(ps, result.E0, result.E1)
